@@ -198,9 +198,21 @@ def eval_parallel(ctx, name, case_type, cases, checks, chunk=250, workers=min(12
     return bad
 
 
+def lf_lines(t: str) -> list[str]:
+    """t split at "\\n" only, terminators kept"""
+    parts = t.split("\n")
+    out = [x + "\n" for x in parts[:-1]]
+    return out + ([parts[-1]] if parts[-1] else [])
+
+
 def classify_pure(ta, tb):
+    """kf_exotic_linebreak only if the class PREDICTS the failure: the texts have an exotic boundary AND the same
+    create_diff, given the lines split at "\\n" alone, produces a diff that does apply and gives the new text"""
     if ref.has_exotic(ta) or ref.has_exotic(tb):
-        return "kf_exotic_linebreak"
+        d = impl().create_diff(lf_lines(ta), lf_lines(tb))
+        if ref.apply_udiff(d, ta) == ref.norm_nl(tb):
+            return "kf_exotic_linebreak"
+        return "c03_pure_roundtrip_not_explained_by_exotic_breaks"
     return "c03_pure_roundtrip"
 
 
@@ -628,25 +640,45 @@ def lossy(text: str) -> bool:
         return False
 
 
-def classify_e2e(ctx, path, before_texts, diffs=()):
-    """finding class of a path whose diffs do not describe its change; before_texts: the original text and the text
-    before the failing step (when known); diffs: the diffs reported for the path"""
+def classify_e2e(ctx, path, orig_t, fin_t, diffs, failed=None):
+    """Finding class of a path whose reported diffs do not describe its change.  A class is returned only when its
+    input condition holds AND it predicts the observed outcome (the defect it names, undone, makes the diffs fold to
+    the bytes on disk); anything else is an unlisted class.
+    failed: None (all diffs applied but the result differs from disk) or (step index, text before that step)."""
     name = os.path.basename(path)
-    if name in MANIFEST_NAMES and any("\r" in t for t in before_texts):
-        return "kf_manifest_crlf"
-    # PyprojectWriter diffs text.split("\n"): the empty string after the final newline becomes a diff line of its own
-    # (a bare prefix character without terminator at the very end of the diff) - impossible for lines of splitlines()
+    nl = ref.norm_nl
+    lf_orig = orig_t.replace("\r\n", "\n")
+    # text-mode manifest writers: read with universal newlines, written with "\n"
+    if name in MANIFEST_NAMES and "\r" in orig_t and "\r" not in fin_t:
+        r = ref.fold(diffs, lf_orig)
+        if r is not None and nl(r) == nl(fin_t):
+            return "kf_manifest_crlf"
+        r = ref.fold(diffs, lf_orig, ref.apply_udiff_split_world) if name == "pyproject.toml" else None
+        if r is not None and nl(r) == nl(fin_t):
+            return "kf_manifest_crlf"       # together with kf_pyproject_phantom_line
+    # PyprojectWriter diffs text.split("\n"): the empty string after the final newline is a diff line of its own (a bare
+    # prefix character ends the diff); in that world the diffs fold to the disk content
     if name == "pyproject.toml" and any(d.split("\n")[-1] in (" ", "+", "-") for d in diffs):
-        return "kf_pyproject_phantom_line"
-    # SetupCfgWriter inserts after a last line that has no terminator
-    if name == "setup.cfg" and before_texts and before_texts[0] and not before_texts[0].endswith("\n"):
-        return "kf_setupcfg_no_final_newline"
-    # only when the source diffs libcst's re-rendering (table value diff_source = FromTrees) can the loss explain it
+        r = ref.fold(diffs, orig_t, ref.apply_udiff_split_world)
+        if r is not None and nl(r) == nl(fin_t):
+            return "kf_pyproject_phantom_line"
+    # FromTrees only: the diff is relative to libcst's re-rendering of the file
     from_trees = (ctx.tables or {}).get("diff_source", "FromTrees") == "FromTrees"
-    if from_trees and path.endswith(".py") and any(lossy(t) for t in before_texts):
-        return "kf_lossy_roundtrip"
-    if any(ref.has_exotic(t) for t in before_texts):
-        return "kf_exotic_linebreak"
+    if from_trees and path.endswith(".py") and lossy(orig_t):
+        import libcst as cst
+        r = ref.fold(diffs, cst.parse_module(orig_t).code)
+        if r is not None and nl(r) == nl(fin_t):
+            return "kf_lossy_roundtrip"
+    # exotic line boundary: the hunk that fails must reach or follow the first line that holds one (hunks wholly
+    # before it are the same in both line models, so their failure is not explained by it)
+    if failed is not None:
+        step, before = failed
+        # hunk positions are in the numbering of before.splitlines(): index of the first line ended by an exotic boundary
+        py_k = next((i for i, l in enumerate(before.splitlines(keepends=True)) if l[-1] != "\n" and ord(l[-1]) in ref.BREAKS), None)
+        fh = ref.failing_hunk(diffs[step], before)
+        if py_k is not None and isinstance(fh, tuple):
+            if fh[0] + max(fh[1], 1) - 1 >= py_k:
+                return "kf_exotic_linebreak"
     return "c03_diff_not_the_change"
 
 
@@ -655,6 +687,10 @@ def check_project(ctx, files, seq, res, desc, e2e_pairs, sast=None):
     replay = {"kind": "e2e", "project": core.b64tree(files), "codemods": seq, "desc": desc}
     if sast:
         replay["sast"] = sast
+    if res["rc"] == -9:
+        # a timeout of the harness's own subprocess is not an observation of the implementation: tie break, no verdict
+        ctx.mismatch("end-to-end CLI run", f"the CLI run timed out (no observation) for {desc}", {**replay, "observed": "timeout"})
+        return 0
     if res["rc"] != 0 or res["report"] is None:
         ctx.violation("c03_cli_failed", f"CLI exit {res['rc']} / no report for {desc}: {res['stderr'][-300:]}",
                       {**replay, "observed": {"rc": res["rc"], "stderr": res["stderr"]}})
@@ -701,13 +737,13 @@ def check_project(ctx, files, seq, res, desc, e2e_pairs, sast=None):
         cls = None
         if failed_at is not None:
             i, cm, d = failed_at
-            cls = classify_e2e(ctx, path, [orig_t, cur], [d for _, d in steps])
+            cls = classify_e2e(ctx, path, orig_t, fin_t, [d for _, d in steps], failed=(i, cur))
             what = (f"{path}: diff #{i + 1} (of {len(steps)}, codemod {cm}) does not apply to the content the previous "
                     f"steps produced ({desc})")
             ctx.violation(cls, what, {**replay, "path": path, "step": i, "codemod": cm, "diff": d, "before": cur,
                                       "expected": "every reported diff applies to the content before its codemod ran"})
         elif ref.norm_nl(cur) != ref.norm_nl(fin_t):
-            cls = classify_e2e(ctx, path, [orig_t], [d for _, d in steps])
+            cls = classify_e2e(ctx, path, orig_t, fin_t, [d for _, d in steps])
             ctx.violation(cls, f"{path}: the {len(steps)} reported diff(s), applied in order to the original, give "
                                f"{cur[:120]!r}... but the file on disk is {fin_t[:120]!r}... ({desc})",
                           {**replay, "path": path, "observed": fin_t, "expected": cur})
@@ -732,8 +768,8 @@ def run(ctx: core.Ctx):
     quick = ctx.quick()
     n_pure = 500 if quick else 20000
     n_exotic = 60 if quick else 1500
-    n_cli = 24 if quick else 300
-    n_sast = 10 if quick else 120
+    n_cli = 20 if quick else 300
+    n_sast = 8 if quick else 120
     if getattr(ctx, "deep", False):
         n_pure, n_cli, n_sast = n_pure * 2, n_cli * 2, n_sast * 2
     corpus = load_corpus()
